@@ -126,8 +126,29 @@ def parse_u8_rule(F, rep):
     rep.ob("FromStr.parse_u8", ok, fn, "body", "parse_u8 must be `s.parse::<u8>()` on the unmodified component with the error mapped, got %s" % tir.pretty(body)[:160])
 
 
+def totality_rule(F, rep):
+    """`total`: no panic-capable site is reachable from parsing, display or comparison of either Version type."""
+    import reach
+    import safety
+    G = reach.Graph(F)
+    entries = []
+    for ty in VERSIONS:
+        entries += ["<%s as std::str::FromStr>::from_str" % ty, "<%s as std::fmt::Display>::fmt" % ty]
+    entries += [order.GTE, order.LT]
+    present = [e for e in entries if e in G.local]
+    rep.floor("Version entry points with MIR", len(present), 6)
+    R, _ = safety.panic_inventory(F, G, rep, present, "c20_invariants.json", rule="total")
+    rep.floor("functions reachable from Version parse/display/compare", len(R), 7)
+    # the inventory is expected to be empty here, so show the site recogniser is live on a body that does index
+    somewhere = sum(len(G.sites(o)) for o in G.local if o.startswith("io::slippi::de::"))
+    rep.control("the site recogniser sees panic-capable sites elsewhere in the crate", somewhere > 0)
+    rep.control("a str/slice index call is in the panic-by-contract table", any(rx.search("std::ops::Index::index") for rx, _, _ in reach.CONTRACT))
+    return G, present
+
+
 def run(F, rep, tier):
     order.rule_gte(F, rep)
+    G, present = totality_rule(F, rep)
     n = 0
     shapes = []
     for ty in VERSIONS:
